@@ -394,7 +394,7 @@ STREAMS = {
   'both': dict(weights={'addreverse': 9, 'bothsides': 12, 'refupd': 6, 'addref': 9}, undo_prob=0.0),
   'replace': dict(weights={'addreverse': 9, 'replacedata': 7, 'refupd': 10}, undo_prob=0.0),
 }
-KNOWN_KINDS = ('both_sides_in_one_action', 'replace_table_data_leaves_reverse_references')
+KNOWN_KINDS = ('both_sides_in_one_action', 'replace_table_data_leaves_reverse_references', 'two_way_column_carries_formula')
 
 
 def dedup_bundle(bundle):
@@ -416,9 +416,11 @@ def has_repeated_ids(bundle):
 
 
 def ref_snapshot(e):
+  """Cells of the plain data reference columns (a column that carries a trigger formula may be recalculated by the
+  Calculate that cleans up after a failed bundle: that is C04's subject, not a UNIQUE rejection changing data)."""
   k4 = K()
   return {(tid, cid): [copy.copy(c.raw_get(r)) for r in sorted(e.tables[tid].row_ids)]
-          for tid, cid, c in k4.ref_columns(e)}
+          for tid, cid, c in k4.ref_columns(e) if not c.has_formula()}
 
 
 class Oracle(object):
@@ -486,7 +488,12 @@ class Oracle(object):
                  and ta == tb and a[1] == ta
                  and ca in (a[3] or {}) and cb in (a[3] or {}) for a in bundle)
       replaced = any(a[0] == 'ReplaceTableData' and a[1] in (ta, tb) for a in bundle)
-      if has_repeated_ids(bundle):
+      carries_formula = any(e.tables[t].get_column(c).has_formula() for t, c in ((ta, ca), (tb, cb)))
+      if carries_formula:
+        # a DATA column with a default/trigger formula was accepted as one side of a pair: the values its formula
+        # computes are stored as calc changes, without the reverse adjustments of prepare_new_values
+        kind = 'two_way_column_carries_formula'
+      elif has_repeated_ids(bundle):
         kind = 'bulk_update_with_repeated_row_id'
       elif both:
         kind = 'both_sides_in_one_action'
@@ -525,6 +532,8 @@ class TieOracle(Oracle):
         others = [c for c in (a[3] or {}) if (t, c) not in ((ta, ca), (tb, cb))]
         if len(named) != 1:
           continue
+        if e.tables[ta].get_column(ca).has_formula() or e.tables[tb].get_column(cb).has_formula():
+          continue      # formula recalculation on a pair column is not part of the model (known finding)
         if any(isinstance(e.tables[t].get_column(c), k4.column_mod.BaseReferenceColumn) for c in others
                if e.tables[t].has_column(c)):
           continue
